@@ -19,7 +19,7 @@ import (
 
 // ---------------------------------------------------------------- generators shared by C05/C06/C10
 
-var nameShapes = []string{"plain", "long", "max", "stack", "ditto", "nul", "binary", "dots", "one", "truncated", "nl-end", "nl-mid", "ditto-first", "stack-nodots"}
+var nameShapes = []string{"plain", "long", "max", "stack", "ditto", "nul", "binary", "dots", "one", "truncated", "nl-end", "nl-mid", "ditto-first", "ditto-name", "stack-nodots"}
 
 // genName returns a counter name of the given shape, unique through uniq.
 func genName(r *verifrt.Rand, shape string, uniq int) string {
@@ -56,6 +56,8 @@ func genName(r *verifrt.Rand, shape string, uniq int) string {
 		return u + "\n"
 	case "nl-mid":
 		return u + "\n\n\nx.y\n\n"
+	case "ditto-name": // the counter's own name looks like an abbreviated frame line
+		return "\".stk/" + u + "\nexample.com/a/b.F:+1,+0x1\n\".G:+2,+0x2"
 	case "ditto-first": // a ditto mark with nothing before it
 		return u + "\n\".f:+1\n\".g:+2"
 	case "stack-nodots":
